@@ -155,6 +155,32 @@ Fourth extension (used by `translator/lca_gen.py`; again every item is switched 
   translates (with `pyfun`) into another generated file: `name(args)` -- only as the value `__init__` assigns to an
   attribute declared of that type -- and `self.attr(args)` are the declared Coq functions, their results converted
   with `lift`; the object returned by a call is dropped (the driver has checked that the call only reads its object).
+
+Fifth extension (used by `translator/toposort_gen.py`; everything is switched on by `Unit.use_containers`, a unit that does not
+call it translates exactly as before):
+
+* `Unit.elemdict(name, value)`: a dictionary keyed by elements: the association list `list (A * V)` of its items in insertion
+  order (iteration order = list order, as Python guarantees for `dict`); `d[k]` is `adict_get eqb d k` (`KeyError` when absent),
+  `d[k] op= e` reads the item, then stores with `adict_set` (the value is replaced where the key stands; a new key would go to
+  the end), `len(d)`, `for v in d.values()`, `for x in d[k]`, `{k: e for k in d}` (`e` cannot raise), `deque(d)` / `set(d)` (the
+  keys in order); a dictionary may only be updated through a local variable or a parameter the driver declares in
+  `FunSpec.mutates` -- the function then returns the final dictionary together with its result (`res (dict * R)`), and a call
+  (only as a whole right-hand side or as the sequence a `for` iterates, with a variable in that position) binds the variable
+  again from the returned pair;
+* type `deque` (of elements): the list of its items, left to right: `deque(d)`, truthiness, `q.append(e)`, `x = q.popleft()`
+  (`IndexError` when empty), `q.remove(e)` (first occurrence, `ValueError` when absent);
+* type `set`, more: `set(s)` (a copy: the same list), `s.remove(e)` (`KeyError` when absent), `s.discard(e)`; `for x in s` on a set
+  *variable* iterates `(ord s)` when the unit names a set order (`use_containers(set_order="ord")`: a Section parameter
+  `ord : list A -> list A`, which the theorems require to return a permutation of its argument -- Python fixes no order);
+  type `seqset`: a set the translated code never updates, given as the list of its elements in the set's iteration order
+  (the values of an input dictionary): iterated in list order, nothing else is translated on it;
+* a module-level function with `FunSpec.rec_fuel` that calls itself is a `Fixpoint <f>_rec` on explicit fuel (`Err OutOfFuel` at
+  0) and `<f>` applies it to the declared fuel; a `for` over a set / list variable whose body makes the recursive call is
+  emitted in place as a local `fix` over the variables the body assigns; the other loops stay top-level Fixpoints;
+* a loop variable holding a list may be updated in place (`x.append(e)`, `x.reverse()`): when the loop iterates the result of a
+  call (a list nothing else names) the update is a rebinding of `x`, and `ys.append(x)` may only be the last statement of the
+  body; when it iterates a local list variable `xs` (nothing else in the body touching `xs`), `x` is `xs[idx']` and every update
+  is written back to `xs` at once (`list_set`).
 """
 from __future__ import annotations
 
@@ -215,12 +241,42 @@ HELPERS["dict_mem"] = """\
 (* k in d *)
 Definition dict_mem {K V : Type} (keqb : K -> K -> bool) (d : list (K * V)) (k : K) : bool :=
   match dict_get keqb d k with Some _ => true | None => false end."""
+HELPERS["adict_get"] = """\
+(* d[k] on a dictionary kept as the list of its items in insertion order: the value of the (first) item whose key is k;
+   None = KeyError *)
+Fixpoint adict_get {K V : Type} (keqb : K -> K -> bool) (d : list (K * V)) (k : K) {struct d} : option V :=
+  match d with
+  | nil => None
+  | cons (k', v) d' => if keqb k k' then Some v else adict_get keqb d' k
+  end."""
+HELPERS["adict_set"] = """\
+(* d[k] = v on a dictionary kept as the list of its items in insertion order: the value of k is replaced where k stands;
+   a new key goes to the end *)
+Fixpoint adict_set {K V : Type} (keqb : K -> K -> bool) (d : list (K * V)) (k : K) (v : V) {struct d} : list (K * V) :=
+  match d with
+  | nil => cons (k, v) nil
+  | cons (k', v') d' => if keqb k k' then cons (k', v) d' else cons (k', v') (adict_set keqb d' k v)
+  end."""
 HELPER_DEPS = {"nset": ["list_set"], "zget": ["zpos"], "zset": ["zpos", "list_set"], "dict_mem": ["dict_get"]}
 SET_DEFS2 = """\
 (* set(xs): the elements of xs, each once, in order of first occurrence; a <= b: every element of a is in b *)
 Definition set_of_list (l : list A) : list A := fold_left (fun s x => set_add x s) l nil.
 Definition set_subset (a b : list A) : bool := forallb (fun x => set_mem x b) a.
 """
+SEQ_DEFS = {
+    "seq_remove": """\
+(* q.remove(x) on a deque / s.remove(x) on a set: without the first item equal to x; None when there is none *)
+Fixpoint seq_remove (x : A) (s : list A) {struct s} : option (list A) :=
+  match s with
+  | nil => None
+  | cons y s' => if eqb x y then Some s' else match seq_remove x s' with Some r => Some (cons y r) | None => None end
+  end.
+""",
+    "set_discard": """\
+(* s.discard(x) *)
+Definition set_discard (x : A) (s : list A) : list A := filter (fun y => negb (eqb x y)) s.
+""",
+}
 PY_MIN = "Definition py_min (a b : A) : A := if ltb b a then b else a."
 SET_DEFS = """\
 (* a Python set of elements: a duplicate-free list in insertion order; s.add(x) appends x unless present *)
@@ -363,6 +419,7 @@ class FunSpec:
     pure: bool = False                    # method that only reads its object (checked): callable on any object, anywhere
     rec_on: Optional[str] = None          # self-recursive method: the tree parameter the recursion descends on (structural)
     owner: Optional[str] = None           # class whose body holds the definition (an inherited method; default: the class itself)
+    mutates: tuple = ()                   # function parameters (dictionaries) the function updates in place: returned with the result
 
 
 @dataclass
@@ -512,9 +569,31 @@ class _Fun:
                              and not any(m.name == n.func.attr and m.pure for m in self.unit.done_methods.get(
                                  self.kind(self.spec.types[n.func.value.id])[1], []))):
                     out.add(n.func.value.id)     # s.add(e) on a set / a method call on an object
+                elif self.containers() and isinstance(n, ast.Call) and isinstance(n.func, ast.Attribute) \
+                        and isinstance(n.func.value, ast.Name) and n.func.value.id in self.spec.types \
+                        and n.func.attr in ("remove", "discard", "popleft", "reverse"):
+                    out.add(n.func.value.id)     # an in-place update of a deque / set / list
+                elif self.containers() and isinstance(n, ast.Call) and isinstance(n.func, ast.Name) \
+                        and n.func.id not in self.spec.types and self.mutated_params(n.func.id):
+                    # f(.., d, ..), f a function that updates its parameter in that position
+                    ps = self.unit.params.get(n.func.id) or self.params
+                    for a, q in zip(n.args, ps):
+                        if q in self.mutated_params(n.func.id) and isinstance(a, ast.Name):
+                            out.add(a.id)
                 elif _is_self_call(n) and not (self.cls is not None and self.cls.frozen) and not self.pure_self_call(n):
                     out.update(self.fieldvars)
         return out
+
+    def containers(self) -> bool:
+        return self.unit is not None and self.unit.containers
+
+    def mutated_params(self, fname: str) -> tuple:
+        """The parameters the translated function `fname` (or the function being translated) updates in place."""
+        if self.unit is None:
+            return ()
+        if fname in self.unit.mutates:
+            return self.unit.mutates[fname]
+        return tuple(self.spec.mutates) if self.cls is None and fname == self.fn.name else ()
 
     def used(self, nodes) -> set:
         out = _names(nodes)
@@ -565,7 +644,7 @@ class _Fun:
         the call (pyfun only ever binds a list variable to a freshly built list), so nothing else names it."""
         if self.unit is None or not (isinstance(e, ast.Call) and isinstance(e.func, ast.Name)) or e.func.id in self.spec.types:
             return False
-        spec = self.unit.functions.get(e.func.id) or (self.spec if self.is_self_rec(e) else None)
+        spec = self.unit.functions.get(e.func.id) or (self.spec if self.is_self_rec(e) or self.is_self_fuel(e) else None)
         if spec is None or not is_list(spec.ret):
             return False
         params = self.unit.params.get(e.func.id) or self.params
@@ -575,6 +654,18 @@ class _Fun:
         """`f(..)` inside the module-level function `f` declared structurally recursive."""
         return self.cls is None and self.unit is not None and bool(self.spec.rec_on) and isinstance(e, ast.Call) \
             and isinstance(e.func, ast.Name) and e.func.id == self.fn.name and e.func.id not in self.spec.types
+
+    def is_self_fuel(self, e) -> bool:
+        """`f(..)` inside the module-level function `f` declared recursive on fuel."""
+        return self.cls is None and self.containers() and bool(self.spec.rec_fuel) and isinstance(e, ast.Call) \
+            and isinstance(e.func, ast.Name) and e.func.id == self.fn.name and e.func.id not in self.spec.types
+
+    def edict_of(self, e, env):
+        """The declared dictionary type when `e` is a variable holding a dictionary keyed by elements; else None."""
+        if self.containers() and isinstance(e, ast.Name) and e.id in env and e.id in self.spec.types \
+                and self.kind(self.spec.types[e.id])[0] == "elemdict":
+            return self.spec.types[e.id]
+        return None
 
     def ntype(self, e, env) -> str:
         """Natural type of an expression: a declared type, lit (int literal: adapts), none (the
@@ -615,6 +706,8 @@ class _Fun:
             return "newdict"
         elif isinstance(e, ast.Dict) and self.unit is not None and self.unit.nodedicts and not e.keys and self.unit.ntrees:
             return "newdict"
+        elif isinstance(e, ast.DictComp) and self.containers():
+            return "newedict"
         elif isinstance(e, ast.Name) and isinstance(e.ctx, ast.Load):
             t = self.vtype(e, e.id, env)
             if e.id not in env:
@@ -657,6 +750,8 @@ class _Fun:
                 return self.lookup(e, bt, env)[0]
             if self.kind(bt)[0] == "nodedict":
                 return self.unit.nodedicts[bt][1]
+            if self.kind(bt)[0] == "elemdict" and isinstance(e.value, ast.Name) and not isinstance(e.slice, ast.Slice):
+                return self.unit.elemdicts[bt]
             if not is_list(bt):
                 self.abort(e, f"indexing a value of type {bt}")
             return arg_of(bt)
@@ -845,6 +940,12 @@ class _Fun:
         if self.unit is not None and isinstance(f, ast.Name) and f.id not in self.spec.types:
             if f.id == "set" and not e.args:
                 return "newset"
+            if f.id in ("set", "deque") and len(e.args) == 1 and self.containers() and isinstance(e.args[0], ast.Name) \
+                    and e.args[0].id in env \
+                    and self.kind(self.ntype(e.args[0], env))[0] in (("elemdict", "set") if f.id == "set" else ("elemdict",)):
+                return "new" + f.id       # the keys of a dictionary / a copy of a set
+            if self.is_self_fuel(e):
+                return self.spec.ret
             if f.id == "set" and len(e.args) == 1 and self.unit.set_ops and is_list(self.ntype(e.args[0], env)) \
                     and arg_of(self.ntype(e.args[0], env)) == "elem":
                 return "newset"
@@ -905,6 +1006,30 @@ class _Fun:
         if want == "bool" and is_list(t):                     # truthiness of a list
             self.need("is_empty")
             return f"(negb (is_empty {self.raw(e, t, env, hoist)}))"
+        if want == "bool" and self.kind(t)[0] == "deque":    # truthiness of a deque
+            self.need("is_empty")
+            return f"(negb (is_empty {self.raw(e, t, env, hoist)}))"
+        if t == "newdeque":
+            if self.kind(want)[0] != "deque":
+                self.abort(e, f"deque(..) where a value of type {want} is expected")
+            return self.raw(e, want, env, hoist)
+        if t == "newedict":
+            # {k: v for k in d}, d a dictionary keyed by elements: the keys of d in order, each with the value v (which
+            # cannot raise and may use k)
+            if self.kind(want)[0] != "elemdict":
+                self.abort(e, f"dictionary comprehension where a value of type {want} is expected")
+            g = e.generators[0] if len(e.generators) == 1 else None
+            if g is None or g.is_async or g.ifs or not isinstance(g.target, ast.Name) or self.edict_of(g.iter, env) is None \
+                    or not (isinstance(e.key, ast.Name) and e.key.id == g.target.id):
+                self.abort(e, "dictionary comprehension other than {k: e for k in <dictionary keyed by elements>}")
+            var = g.target.id
+            if self.ty(e, var) != "elem" or var in env:
+                self.abort(e, f"comprehension variable {var!r} must be declared elem and used nowhere else")
+            sub: list = []
+            val = self.expr(e.value, self.unit.elemdicts[want], env + [var], sub)
+            if sub:
+                self.abort(e, "comprehension value that can raise")
+            return f"(map (fun {self.binder(e, var)} => ({var}, {val})) (map fst {g.iter.id}))"
         if want == "bool" and self.kind(t)[0] == "set":      # truthiness of a set
             self.need("is_empty")
             return f"(negb (is_empty {self.raw(e, t, env, hoist)}))"
@@ -1079,6 +1204,16 @@ class _Fun:
             return f"({d} ({kt}_id {self.raw(key, kt, env, hoist)}))"
         if isinstance(e, ast.Subscript) and self.unit is not None and is_pair(self.ntype(e.value, env)):
             return f"({('fst', 'snd')[self.pair_index(e)]} {self.raw(e.value, self.ntype(e.value, env), env, hoist)})"
+        if isinstance(e, ast.Subscript) and self.edict_of(e.value, env) is not None:
+            # d[k] on a dictionary keyed by elements: KeyError when k is not a key
+            if isinstance(e.slice, ast.Slice) or self.ntype(e.slice, env) != "elem" or not isinstance(e.ctx, ast.Load):
+                self.abort(e, f"key of {e.value.id} that is not an element")
+            self.need("adict_get", "KeyError")
+            self.uses_eqb = True
+            key = self.expr(e.slice, "elem", env, hoist)
+            self.nt += 1
+            hoist.append(("unwrap", f"t'{self.nt}", f"adict_get eqb {e.value.id} {key}", "KeyError"))
+            return f"t'{self.nt}"
         if isinstance(e, ast.Subscript) and isinstance(e.value, ast.Name) and self.unit is not None \
                 and self.kind(self.ntype(e.value, env))[0] == "nodedict" and self.unit.ntrees:
             # (as below; the key may itself be hoisted, e.g. d[xs[0]]: it is evaluated first)
@@ -1175,6 +1310,9 @@ class _Fun:
         if isinstance(f, ast.Name) and f.id == "len" and len(e.args) == 1 \
                 and isinstance(e.args[0], ast.Name) and is_list(self.ntype(e.args[0], env)):
             return f"(N.of_nat (length {e.args[0].id}))"
+        if isinstance(f, ast.Name) and f.id == "len" and len(e.args) == 1 and "len" not in self.spec.types \
+                and self.edict_of(e.args[0], env) is not None:
+            return f"(N.of_nat (length {e.args[0].id}))"       # len(d): the number of items
         if isinstance(f, ast.Attribute) and f.attr == "bit_length" and not e.args:
             vt = self.ntype(f.value, env)
             if vt == "Z" and self.unit is not None:
@@ -1196,6 +1334,10 @@ class _Fun:
         if isinstance(f, ast.Name) and f.id not in self.spec.types:
             if f.id == "set" and not e.args:
                 return f"(@nil ({self.ct('elem' + self.kind(t)[2])}))"
+            if f.id in ("set", "deque") and len(e.args) == 1 and self.containers() and self.call_type(e, env) == "new" + f.id:
+                a = e.args[0]
+                # the keys of a dictionary, in order (distinct, as keys are) / a copy of a set: the same immutable list
+                return f"(map fst {a.id})" if self.edict_of(a, env) is not None else a.id
             if f.id == "set" and len(e.args) == 1 and self.unit.set_ops:
                 if self.kind(t)[2] or self.unit.outside:
                     self.abort(e, "set(xs) outside the section of the element equality")
@@ -1302,6 +1444,39 @@ class _Fun:
             if not isinstance(a, ast.Name) or not is_list(self.ntype(a, env)):
                 self.abort(e, "list(xs) is only translated for xs a sequence variable")
             return a.id                          # a copy of an immutable value is the value
+        if isinstance(f, ast.Name) and f.id not in self.spec.types and self.containers() \
+                and (self.is_self_fuel(e) or f.id in self.unit.functions and self.mutated_params(f.id)):
+            # f(..) with f recursive on fuel (the function being translated) and / or f updating a dictionary parameter in
+            # place: the call returns the final dictionaries with the result, the variables passed are bound again
+            rec = self.is_self_fuel(e)
+            callee = self.spec if rec else self.unit.functions[f.id]
+            params = self.params if rec else self.unit.params[f.id]
+            mut = self.mutated_params(f.id)
+            if len(params) != len(e.args) or any(isinstance(a, ast.Starred) for a in e.args):
+                self.abort(e, f"{f.id}() called with {len(e.args)} arguments")
+            if mut and id(e) not in self.callpos:
+                self.abort(e, f"{f.id}(..) updates a parameter: only translated as a whole right-hand side or as the sequence "
+                              "a for iterates (elsewhere the evaluation order would matter)")
+            bound = {}
+            for a, q in zip(e.args, params):
+                k = self.kind(callee.types[q])[0]
+                if (is_list(callee.types[q]) or k in ("set", "deque", "elemdict", "seqset")) and not isinstance(a, ast.Name):
+                    self.abort(e, "container argument that is not a variable")
+                if q in mut:
+                    if a.id not in env or a.id in bound.values() or self.spec.types.get(a.id) != callee.types[q] \
+                            or (a.id in self.params and a.id not in self.spec.mutates):
+                        self.abort(e, f"{a.id!r} is updated by {f.id}(..): it must be a local variable (or a parameter declared "
+                                      "as updated) of the same dictionary type, passed once")
+                    bound[q] = a.id
+            args = [self.expr(a, callee.types[q], env, hoist) for a, q in zip(e.args, params)]
+            name = self.prefix + (callee.alias or callee.name)
+            if rec:
+                self.in_rec = True
+                name += "_rec fuel''"
+            self.nt += 1
+            pat = f"t'{self.nt}" if not mut else "(" + ", ".join([bound[q] for q in mut] + [f"t'{self.nt}"]) + ")"
+            hoist.append(("call", pat, " ".join([name] + args)))
+            return f"t'{self.nt}"
         if isinstance(f, ast.Name) and f.id in self.unit.functions:
             callee = self.unit.functions[f.id]
             params = self.unit.params[f.id]
@@ -1505,6 +1680,8 @@ class _Fun:
                 and s.value.func.attr == "append" and isinstance(s.value.func.value, ast.Subscript) \
                 and isinstance(s.value.func.value.value, ast.Name):
             self.callpos.add(id(s.value.func.value.slice))
+        if isinstance(s, ast.For) and self.containers():
+            self.callpos.add(id(s.iter))        # evaluated once, before the loop
 
     def updatable(self, node, x: str, env):
         """`x` names a list this function may update in place."""
@@ -1529,6 +1706,62 @@ class _Fun:
         fn = "zset" if entry[0] == "zidx" else "nset"
         self.need(fn)
         return fn, entry[3]
+
+    def container_update(self, s, env):
+        """The translation (a function of the statements that follow and the context) of a statement that updates a deque, a
+        set or a list in place through one of the methods the fifth extension adds; None when `s` is not one of them."""
+        c, x = s.value, s.value.func.value.id
+        meth, k = c.func.attr, self.kind(self.spec.types.get(x, ""))[0]
+        xt = self.spec.types.get(x, "")
+        is_stmt = isinstance(s, ast.Expr)
+        if not ((k == "deque" and (is_stmt and meth in ("append", "remove") or not is_stmt and meth == "popleft"))
+                or (k == "set" and is_stmt and meth in ("remove", "discard"))
+                or (is_list(xt) and is_stmt and meth == "reverse")):
+            if k == "deque" or (k == "set" and meth != "add") or k in ("elemdict", "seqset"):
+                self.abort(s, f"{x}.{meth}(..) on a value of type {xt} is outside the handled subset")
+            return None
+        if any(isinstance(a, ast.Starred) for a in c.args) or len(c.args) != (0 if meth in ("popleft", "reverse") else 1):
+            self.abort(s, f"{x}.{meth}(..) with {len(c.args)} arguments")
+        if x in self.params or x in self.fieldvars or self.kind(xt)[2] or self.unit.outside:
+            self.abort(s, f"{meth} is only handled on a local variable (a parameter would be mutated for the caller)")
+        h: list = []
+
+        def done(lines):
+            return lambda rest, ctx: self.hoisted(h, lines(rest, ctx), ctx)
+        if meth == "popleft":
+            # y = q.popleft(): the first item (IndexError when there is none), q keeps the others
+            if len(s.targets) != 1 or not isinstance(s.targets[0], ast.Name):
+                self.abort(s, "only 'name = q.popleft()' is handled")
+            y = s.targets[0].id
+            if self.ty(s, y) != "elem" or y == x or y in self.params or y in self.fieldvars or y + "!" in env:
+                self.abort(s, f"{y!r} must be a local variable declared elem")
+            return done(lambda rest, ctx: [f"match {x} with", f"| nil => {ctx.fail('IndexError')}", f"| cons {y} {x} =>"]
+                        + _ind(self.block(rest, env + [y] * (y not in env), ctx)) + ["end"])
+        if meth == "reverse":
+            # xs.reverse() on a list: the items in the opposite order
+            return done(lambda rest, ctx: [f"let {x} := (rev {x}) in"] + self.write_back(s, x, rest, env, ctx))
+        item = self.expr(c.args[0], "elem", env, h)
+        if meth == "append":
+            return done(lambda rest, ctx: [f"let {x} := ({x} ++ cons {item} nil) in"] + self.block(rest, env, ctx))
+        self.uses_eqb = True
+        if meth == "discard":
+            self.need("set_discard")
+            return done(lambda rest, ctx: [f"let {x} := (set_discard {item} {x}) in"] + self.block(rest, env, ctx))
+        # q.remove(e) / s.remove(e): the first item equal to e goes; ValueError (deque) / KeyError (set) when there is none
+        err = "ValueError" if k == "deque" else "KeyError"
+        self.need("seq_remove", err)
+        return done(lambda rest, ctx: [f"match seq_remove {item} {x} with", f"| None => {ctx.fail(err)}", f"| Some {x} =>"]
+                    + _ind(self.block(rest, env, ctx)) + ["end"])
+
+    def write_back(self, node, x: str, rest, env, ctx) -> List[str]:
+        """What follows an in-place update of the list `x`: when x is the variable of a loop over the list variable `xs`
+        (x is `xs[idx']`), the new value is stored into xs first."""
+        xs = getattr(self, "alias", {}).get(x)
+        if xs is None:
+            return self.block(rest, env, ctx)
+        self.need("list_set")
+        return [f"match list_set {xs} idx' {x} with", f"| None => {ctx.fail('IndexError')}", f"| Some {xs} =>"] \
+            + _ind(self.block(rest, env, ctx)) + ["end"]
 
     def store(self, node, target, value_of, env, h, rest, ctx, read_first=False) -> List[str]:
         """`target = value` for a subscript target; `value_of(old)` translates the value (appending to `h`)."""
@@ -1637,6 +1870,12 @@ class _Fun:
             self.need("AssertionError")
             return [f"match {x} with", f"| None => {ctx.fail('AssertionError')}", f"| Some {x} =>"] \
                 + _ind(self.block(rest, env + [x + "!"], ctx)) + ["end"]
+        if self.containers() and isinstance(s, (ast.Assign, ast.Expr)) and isinstance(s.value, ast.Call) \
+                and isinstance(s.value.func, ast.Attribute) and isinstance(s.value.func.value, ast.Name) \
+                and s.value.func.value.id in env and not s.value.keywords:
+            upd = self.container_update(s, env)
+            if upd is not None:
+                return upd(rest, ctx)
         if isinstance(s, ast.Expr) and self.unit is not None and isinstance(s.value, ast.Call) \
                 and isinstance(s.value.func, ast.Attribute) and isinstance(s.value.func.value, ast.Name) \
                 and s.value.func.value.id != "self" and not s.value.keywords:
@@ -1701,6 +1940,10 @@ class _Fun:
             if not is_list(lt) or x in self.params:
                 self.abort(s, "append is only handled on a local sequence variable (a parameter would be mutated for the caller)")
             term = f"({x} ++ cons {self.expr(c.args[0], arg_of(lt), env, h)} nil)"
+            if self.containers():
+                if isinstance(c.args[0], ast.Name) and is_list(arg_of(lt)) and c.args[0].id not in getattr(self, "temp_vars", ()):
+                    self.abort(s, "append of a list variable (the two lists would share it)")
+                return self.hoisted(h, [f"let {x} := {term} in"] + self.write_back(s, x, rest, env, ctx), ctx)
             return self.hoisted(h, [f"let {x} := {term} in"] + self.block(rest, env, ctx), ctx)
         if isinstance(s, (ast.Assign, ast.AnnAssign)):
             if isinstance(s, ast.AnnAssign):
@@ -1759,6 +2002,8 @@ class _Fun:
                 env2 = env + [v for v in names if v not in env]
                 return [f"match {x} with", f"| {tt}_leaf _ => {ctx.fail('ValueError')}", f"| {tt}_node _ {names[0]} {names[1]} =>"] \
                     + _ind(self.block(rest, env2, ctx)) + ["end"]
+            if isinstance(target, ast.Subscript) and self.edict_of(target.value, env) is not None:
+                self.abort(s, "store into a dictionary keyed by elements other than d[k] op= e")
             if isinstance(target, ast.Subscript):
                 bt = None
                 n = target
@@ -1792,8 +2037,15 @@ class _Fun:
                 if x in self.fieldvars and self.fn.name != "__init__":
                     self.abort(s, "a list attribute may only be rebound in __init__")
             elif self.kind(xt)[0] == "set":
+                if self.containers() and x in self.params:
+                    self.abort(s, "assignment to a set parameter")
                 if self.ntype(s.value, env) != "newset":
                     self.abort(s, "a set variable may only be assigned set() or {e} (anything else could alias another set)")
+            elif self.kind(xt)[0] in ("deque", "elemdict", "seqset"):
+                # a deque / a dictionary keyed by elements is only ever bound to a newly built one (no alias)
+                if self.ntype(s.value, env) != {"deque": "newdeque", "elemdict": "newedict"}.get(self.kind(xt)[0]) \
+                        or x in self.params or x in self.fieldvars:
+                    self.abort(s, f"a variable of type {xt} may only be a local assigned deque(d) / {{k: e for k in d}}")
             elif self.kind(xt)[0] == "nodedict":
                 if self.ntype(s.value, env) != "newdict" or x in self.params \
                         or (x in self.fieldvars and not (self.fn.name == "__init__" and self.unit.ntrees)):
@@ -1809,6 +2061,29 @@ class _Fun:
             term = self.expr(s.value, xt, env, h)
             env2 = [v for v in env if v != x + "!"]
             return self.hoisted(h, [f"let {x} := {term} in"] + self.block(rest, env2 + [x] * (x not in env2), ctx), ctx)
+        if isinstance(s, ast.AugAssign) and isinstance(s.target, ast.Subscript) and self.edict_of(s.target.value, env) is not None:
+            # d[k] op= e, d a dictionary keyed by elements: d[k] is read (KeyError when k is not a key), e evaluated, the
+            # result stored at k -- which is a key, so that the value is replaced where it stands
+            d, key = s.target.value.id, s.target.slice
+            vt = self.unit.elemdicts[self.spec.types[d]]
+            if type(s.op) not in BINOPS or isinstance(s.op, (ast.LShift, ast.RShift)) or vt not in ("N", "Z") \
+                    or not isinstance(key, ast.Name) or self.ntype(key, env) != "elem":
+                self.abort(s, "augmented assignment to a dictionary item outside the handled subset (d[k] op= e, k an element "
+                              "variable, integer values)")
+            if d in self.fieldvars or (d in self.params and d not in self.spec.mutates):
+                self.abort(s, f"update of the parameter {d!r}, which is not declared as updated by this function")
+            if isinstance(s.op, ast.Sub) and vt != "Z":
+                self.abort(s, "subtraction is only translated in Z (an N result could be negative in Python)")
+            self.need("adict_get", "KeyError", "adict_set")
+            self.uses_eqb = True
+            self.nt += 1
+            old = f"t'{self.nt}"
+            h.append(("unwrap", old, f"adict_get eqb {d} {key.id}", "KeyError"))
+            rt = self.ntype(s.value, env)
+            if self.join(s, vt, rt) != vt:
+                self.abort(s, f"augmented assignment producing {self.join(s, vt, rt)} into an item of type {vt}")
+            term = f"({vt}.{BINOPS[type(s.op)]} {old} {self.expr(s.value, vt, env, h)})"
+            return self.hoisted(h, [f"let {d} := (adict_set eqb {d} {key.id} {term}) in"] + self.block(rest, env, ctx), ctx)
         if isinstance(s, ast.AugAssign):
             if isinstance(s.target, ast.Subscript) and type(s.op) in BINOPS and isinstance(s.target.value, ast.Name):
                 et = arg_of(self.ntype(s.target.value, env))
@@ -1891,7 +2166,7 @@ class _Fun:
             it, kind, targets = s.iter, "children", [s.target.id]
         elif isinstance(s, ast.For) and self.unit is not None and isinstance(s.target, ast.Name) \
                 and (isinstance(s.iter, ast.Name) or isinstance(s.iter, ast.Call) and self.obj_call(s.iter, env) is not None
-                     or self.tail_slice(s.iter, env) is not None):
+                     or self.tail_slice(s.iter, env) is not None or self.container_iter(s.iter, env) is not None):
             it, kind, targets = s.iter, "each", [s.target.id]
         elif isinstance(s, ast.For) and self.unit is not None and isinstance(s.iter, ast.Call) \
                 and isinstance(s.iter.func, ast.Name) and s.iter.func.id == "product" and "product" in self.unit.builtins \
@@ -1929,6 +2204,10 @@ class _Fun:
         else:
             kind = "while"
         mutated = self.assigned(s.body)
+        alias = None
+        if kind == "each" and self.containers() and targets[0] in mutated and targets[0] not in env:
+            alias = self.alias_loop(s, it, env, mutated)      # the loop variable holds a list the body updates in place
+            mutated = (mutated - {targets[0]}) | ({alias} if alias else set())
         for x in targets:
             if x in env or x in mutated or len(set(targets)) != len(targets):
                 self.abort(s, f"loop variable {x!r} is also assigned elsewhere")
@@ -1943,6 +2222,9 @@ class _Fun:
         rec_inside = any(self.is_self_rec(c) for b in s.body for c in ast.walk(b))
         if rec_inside and kind != "children":
             self.abort(s, "recursive call inside a loop other than 'for c in <node>.children'")
+        fuel_inside = any(self.is_self_fuel(c) for b in s.body for c in ast.walk(b))
+        if fuel_inside and (kind != "each" or alias is not None or isinstance(it, ast.Call)):
+            self.abort(s, "call of the function itself (recursion on fuel) inside a loop other than 'for x in <variable>'")
         name = f"{self.prefix}{self.spec.alias or self.fn.name}_{'while' if kind == 'while' else 'for'}{n}"
         tup = "tt" if not state else state[0] if len(state) == 1 else "(" + ", ".join(state) + ")"
         sty = " * ".join(self.ct(self.ty(s, v)) for v in state) or "unit"
@@ -1997,6 +2279,34 @@ class _Fun:
             fix = [sig(f"(it' : {cty})", "it'"), "  match it' with", f"  | nil => Next {tup}",
                    f"  | cons {targets[0]} it'' =>"] + _ind(_ind(body)) + ["  end."]
             call = args([term])
+        elif kind == "each" and self.containers():
+            term, cty, et = self.iterable(s, it, env, h, mutated - ({alias} if alias else set()))
+            if self.ty(s, targets[0]) != et:
+                self.abort(s, f"the loop variable must be declared {et}")
+            saved = (getattr(self, "alias", {}), getattr(self, "temp_vars", ()))
+            if targets[0] in self.assigned(s.body):
+                # the loop variable holds a list the body updates in place: it is xs[idx'] (alias: the list variable xs the
+                # loop iterates, updated at once) or an item of a list nothing else names (the result of a call)
+                self.alias = dict(saved[0], **{targets[0]: alias})
+                self.temp_vars = tuple(saved[1]) + ((targets[0],) if alias is None else ())
+            idx = ["idx'"] * (alias is not None)
+            if fuel_inside:
+                # the body calls the enclosing function (recursion on fuel): the loop is a local [fix] inside that function's
+                # Fixpoint, over the variables the body assigns (the others are in scope)
+                ctx.fall = " ".join([name, "it''"] + state)
+                body = self.block(s.body, inner_env + targets, ctx)
+                self.alias, self.temp_vars = saved
+                head = " ".join([f"(fix {name} (it' : {cty})"] + [self.binder(s, v) for v in state]
+                                + [f"{{struct it'}} : flow ({sty}) ({self.RR}) :="])
+                lines = [head, "   match it' with", f"   | nil => Next {tup}", f"   | cons {targets[0]} it'' =>"] \
+                    + _ind(_ind(_ind(body))) + ["   end) " + " ".join([term] + state)]
+                return lines, state
+            ctx.fall = args(["it''"] + ["(S idx')"] * len(idx))
+            body = self.block(s.body, inner_env + targets, ctx)
+            self.alias, self.temp_vars = saved
+            fix = [sig(f"(it' : {cty})" + " (idx' : nat)" * len(idx), "it'"), "  match it' with", f"  | nil => Next {tup}",
+                   f"  | cons {targets[0]} it'' =>"] + _ind(_ind(body)) + ["  end."]
+            call = args([term] + ["O"] * len(idx))
         elif kind == "each":
             term, cty, et = self.iterable(s, it, env, h, mutated)
             if self.ty(s, targets[0]) != et:
@@ -2101,23 +2411,104 @@ class _Fun:
             if ts[0] in mutated:
                 self.abort(s, "the loop modifies the sequence it iterates")
             return f"(skipn {ts[1]} {ts[0]})", self.ct(t), arg_of(t)
+        ci = self.container_iter(a, env)
+        if ci == "values":
+            # for v in d.values(): the values of the items, in order
+            d = a.func.value.id
+            if d in mutated:
+                self.abort(s, "the loop modifies the dictionary it iterates")
+            vt = self.unit.elemdicts[self.spec.types[d]]
+            return f"(map snd {d})", f"list {self.ct(vt) if ' ' not in self.ct(vt) else '(' + self.ct(vt) + ')'}", vt
         t = self.ntype(a, env)
         if is_list(t):
             et = arg_of(t)
         elif self.kind(t)[0] == "set":
             et = "elem" + self.kind(t)[2]
+        elif self.kind(t)[0] == "seqset":
+            et = "elem"                       # a set nothing updates, given in its iteration order
         else:
             self.abort(s, f"iteration over a value of type {t}")
+        if ci == "item":
+            if a.value.id in mutated:
+                self.abort(s, "the loop modifies the dictionary whose item it iterates")
+            if self.kind(t)[0] == "set":
+                self.abort(s, "iteration over a dictionary item declared 'set' (declare 'seqset': a set nothing updates, "
+                              "given in its iteration order)")
+            return self.expr(a, t, env, h), self.ct(t), et
+        if ci == "call":
+            return self.expr(a, t, env, h), self.ct(t), et        # the result of the call: a list nothing else names
         if isinstance(a, ast.Name):
             if a.id in mutated:
                 self.abort(s, "the loop modifies the sequence it iterates")
+            if self.containers() and self.kind(t)[0] == "set" and self.unit.set_order:
+                # Python fixes no order for the items of a set: the unit's order function decides
+                return f"({self.unit.set_order} {a.id})", self.ct(t), et
         elif not (isinstance(a, ast.Call) and self.obj_call(a, env) and self.obj_call(a, env)[0] not in mutated):
             self.abort(s, "iteration over something other than a variable or a reading method call on an object the loop leaves alone")
         return self.expr(a, t, env, h), self.ct(t), et
 
+    def container_iter(self, a, env):
+        """'item' when `a` is `d[k]`, 'values' when it is `d.values()` (d a dictionary variable keyed by elements), 'call' when
+        it is `f(..)` for a function of the unit (or the function itself, recursive on fuel) returning a list; else None."""
+        if not self.containers():
+            return None
+        if isinstance(a, ast.Subscript) and self.edict_of(a.value, env) is not None:
+            return "item"
+        if isinstance(a, ast.Call) and isinstance(a.func, ast.Attribute) and a.func.attr == "values" and not a.args \
+                and not a.keywords and self.edict_of(a.func.value, env) is not None:
+            return "values"
+        if isinstance(a, ast.Call) and isinstance(a.func, ast.Name) and a.func.id not in self.spec.types and not a.keywords \
+                and (a.func.id in self.unit.functions or self.is_self_fuel(a)) and self.fresh_call(a):
+            return "call"
+        return None
+
+    def alias_loop(self, s, it, env, mutated):
+        """Checks for `for x in <it>` whose body updates the list x in place.  Returns the list variable xs when the loop
+        iterates xs (x is xs[idx'], every update is written back), None when it iterates the result of a call."""
+        x = s.target.id
+        if not is_list(self.ty(s, x)):
+            self.abort(s, f"loop variable {x!r} is also assigned elsewhere")
+        ci = self.container_iter(it, env)
+        over_var = isinstance(it, ast.Name) and it.id in env and it.id not in self.params and it.id not in self.fieldvars \
+            and is_list(self.spec.types.get(it.id, "")) and arg_of(self.spec.types[it.id]) == self.ty(s, x)
+        if ci != "call" and not over_var:
+            self.abort(s, f"the loop updates its variable {x!r} in place: only handled over a local list variable or the result "
+                          "of a call")
+        if over_var and it.id in mutated:
+            self.abort(s, "the loop modifies the sequence it iterates")
+        parents = {id(c): n for b in s.body for n in ast.walk(b) for c in ast.iter_child_nodes(n)}
+        escapes = []
+        for b in s.body:
+            for n in ast.walk(b):
+                if not (isinstance(n, ast.Name) and n.id == x):
+                    continue
+                par = parents.get(id(n))
+                if not isinstance(n.ctx, ast.Load):
+                    self.abort(n, f"loop variable {x!r} is also assigned elsewhere")
+                if isinstance(par, ast.Attribute) and par.attr in ("append", "reverse") and isinstance(parents.get(id(par)), ast.Call) \
+                        and parents[id(par)].func is par:
+                    continue                      # x.append(..) / x.reverse()
+                if isinstance(par, ast.Call) and isinstance(par.func, ast.Name) and par.func.id == "len" and "len" not in self.spec.types:
+                    continue                      # len(x)
+                if isinstance(par, ast.Subscript) and par.value is n and isinstance(par.ctx, ast.Load):
+                    continue                      # x[i]
+                escapes.append(n)
+        last = s.body[-1]
+        ok_last = isinstance(last, ast.Expr) and isinstance(last.value, ast.Call) and isinstance(last.value.func, ast.Attribute) \
+            and last.value.func.attr == "append" and isinstance(last.value.func.value, ast.Name) and last.value.func.value.id != x \
+            and len(last.value.args) == 1 and not last.value.keywords
+        for n in escapes:
+            if over_var or not (ok_last and last.value.args[0] is n):
+                self.abort(n, f"the list {x!r}, which the loop updates in place, is stored elsewhere (only 'ys.append({x})' as the "
+                              "last statement of a loop over the result of a call is handled)")
+        return it.id if over_var else None
+
     def pack(self, e: str) -> str:
         """The value a `return e` hands back: for a method, together with the state of the object."""
-        return e if self.cls is None else f"({self.state(self.fn)}, {e})"
+        if self.cls is None:
+            # a function that updates dictionary parameters hands them back with its result
+            return e if not self.spec.mutates else "(" + ", ".join(list(self.spec.mutates) + [e]) + ")"
+        return f"({self.state(self.fn)}, {e})"
 
     def translate(self) -> str:
         fn, a = self.fn, self.fn.args
@@ -2159,6 +2550,8 @@ class _Fun:
             return self.translate_method()
         binders = " ".join(self.binder(fn, p) for p in self.params)
         ctx = _Ctx(ret=lambda e: f"Ok {e}", fail=lambda e: f"Err {e}", fall=None)
+        if self.spec.mutates or self.spec.rec_fuel:
+            return self.translate_fifth(binders)
         if self.spec.rec_on and (self.unit is None or self.spec.rec_on not in self.params
                                  or self.kind(self.spec.types[self.spec.rec_on])[0] != "ntree" or self.spec.rec_fuel):
             self.abort(fn, "the recursion parameter of a function must be a parameter of a declared n-ary tree type")
@@ -2172,6 +2565,34 @@ class _Fun:
                 + "\n".join(_ind(body)) + "."])
         return head + "\n\n".join(self.fixpoints + [
             f"Definition {self.prefix}{self.spec.alias or fn.name} {binders} : res ({self.R}) :=\n" + "\n".join(_ind(body)) + "."])
+
+    def translate_fifth(self, binders: str) -> str:
+        """A module-level function that updates dictionary parameters in place (`FunSpec.mutates`: it returns them, in that
+        order, together with its result) and / or calls itself (`FunSpec.rec_fuel`: a Fixpoint on explicit fuel)."""
+        fn = self.fn
+        if not self.containers() or self.spec.rec_on:
+            self.abort(fn, "fuel / updated parameters declared for a function of a unit without `use_containers`")
+        for m in self.spec.mutates:
+            if m not in self.params or self.kind(self.spec.types.get(m, ""))[0] != "elemdict" \
+                    or list(self.spec.mutates).count(m) != 1:
+                self.abort(fn, f"updated parameter {m!r} is not a parameter holding a dictionary keyed by elements")
+        if self.spec.mutates:
+            self.RR = " * ".join([self.ct(self.spec.types[m]) for m in self.spec.mutates]
+                                 + [self.R if " " not in self.R else "(" + self.R + ")"])
+        ctx = _Ctx(ret=lambda e: f"Ok {self.pack(e)}", fail=lambda e: f"Err {e}", fall=None, retp=lambda e: f"Ok {e}")
+        body = self.block(fn.body, list(self.params), ctx)
+        name = self.prefix + (self.spec.alias or fn.name)
+        head = f"(* {fn.name}, line {fn.lineno} *)\n"
+        if not self.spec.rec_fuel:
+            return head + "\n\n".join(self.fixpoints + [
+                f"Definition {name} {binders} : res ({self.RR}) :=\n" + "\n".join(_ind(body)) + "."])
+        if not self.in_rec:
+            self.abort(fn, "fuel declared for a function that does not call itself")
+        rec = [f"Fixpoint {name}_rec (fuel' : nat) {binders} {{struct fuel'}} : res ({self.RR}) :=",
+               "  match fuel' with", "  | O => Err OutOfFuel", "  | S fuel'' =>"] + _ind(_ind(body)) + ["  end."]
+        top = [f"Definition {name} {binders} : res ({self.RR}) :=",
+               f"  {name}_rec ({self.spec.rec_fuel}) {' '.join(self.params)}."]
+        return head + "\n\n".join(self.fixpoints + ["\n".join(rec), "\n".join(top)])
 
     def translate_method(self) -> str:
         fn, cls = self.fn, self.cls
@@ -2312,6 +2733,11 @@ class Unit:
         self.raises = False                    # `raise <Error>(..)` of a modelled built-in exception
         self.pure_self_calls = False           # methods declared `pure` may call each other (and `self(..)`) in expressions
         self.fun_defaults: Dict[str, dict] = {}   # translated function -> {parameter: its (int literal) default}
+        # fifth extension (all empty / False for the units that do not call `use_containers`)
+        self.containers = False                # deque / seqset types, more set methods, dictionaries keyed by elements, ...
+        self.set_order: Optional[str] = None   # Section parameter `list A -> list A`: the order in which a set variable is iterated
+        self.elemdicts: Dict[str, str] = {}    # dictionary keyed by elements -> declared type of its values
+        self.mutates: Dict[str, tuple] = {}    # translated function -> the (dictionary) parameters it updates in place
 
     # ------------------------------------------------------------ declared types
     def parametric(self) -> set:
@@ -2320,7 +2746,8 @@ class Unit:
 
     def extra_names(self) -> set:
         base = set(self.opaques) | set(self.enums) | {"unit", "none"} | set(self.trees) | set(self.mappings) \
-            | set(self.enumdicts) | set(self.nodedicts) | set(self.ntrees) | set(self.foreigns)
+            | set(self.enumdicts) | set(self.nodedicts) | set(self.ntrees) | set(self.foreigns) | set(self.elemdicts) \
+            | ({"deque", "seqset"} if self.containers else set())
         return base | {p + s for p in self.parametric() for s in self.insts}
 
     def kind(self, t: str):
@@ -2340,6 +2767,10 @@ class Unit:
             return "ntree", t, ""
         if t in self.foreigns:
             return "foreign", t, ""
+        if t in self.elemdicts:
+            return "elemdict", t, ""
+        if self.containers and t in ("deque", "seqset"):
+            return t, t, ""
         for sfx in sorted(self.insts, key=len, reverse=True):
             b = t[:len(t) - len(sfx)] if sfx else t
             if t.endswith(sfx) and b in self.parametric():
@@ -2364,8 +2795,13 @@ class Unit:
             for c, spec in self.classes.items():
                 base[c + sfx] = f"{spec.short}_state{arg}"
         if not self.opaques and not self.enums and not self.datas and not self.classes and not self.outside \
-                and not self.ntrees and not self.foreigns:
+                and not self.ntrees and not self.foreigns and not self.containers:
             return {}
+        if self.containers:
+            base["deque"] = base["seqset"] = f"list {self.insts[''][0]}"
+            for k, vt in self.elemdicts.items():
+                v = coq_type(vt, base)
+                base[k] = f"list ({self.insts[''][0]} * {v if ' ' not in v else '(' + v + ')'})"
         for k, (tree, vt) in self.mappings.items():
             v = coq_type(vt, base)
             base[k] = f"{self.trees[tree]} -> {v if ' ' not in v else '(' + v + ')'}"
@@ -2553,6 +2989,25 @@ class Unit:
             self.abort(self.tree, f"arithmetic declared for {name!r}, which is not an opaque type")
         self.arith[name] = (add, of_Z)
 
+    def use_containers(self, set_order: str = None):
+        """Switch on the fifth extension: the types `deque` and `seqset`, `remove` / `discard` / `set(s)` on sets, dictionaries
+        keyed by elements (`elemdict`), functions recursive on fuel, functions that update a dictionary parameter, loop
+        variables holding a list that is updated in place.  `set_order`: the Section parameter (`list A -> list A`) applied to
+        a set variable where a `for` iterates it (None: list order)."""
+        self.containers = True
+        self.set_order = set_order
+        self.taken.update({"adict_get", "adict_set", "seq_remove", "set_discard", "rev", "list_set"} | ({set_order} if set_order else set()))
+
+    def elemdict(self, name: str, value: str):
+        """A dictionary keyed by elements (compared with the Section's `eqb`): the list of its items in insertion order."""
+        if not self.containers or name in RESERVED or name in self.extra_names():
+            self.abort(self.tree, f"dictionary type name {name!r} is in use (or `use_containers` was not called)")
+        try:
+            self.elemdicts[name] = norm_type(value, self.extra_names())
+        except ValueError as e:
+            self.abort(self.tree, f"unknown declared type {e.args[0]!r} for the values of {name}")
+        self.taken.add(name)
+
     def use_product(self):
         self.imported("product", "itertools")
         self.builtins.add("product")
@@ -2665,6 +3120,8 @@ class Unit:
         text = fun.translate()
         self.functions[spec.name] = spec
         self.params[spec.name] = [x.arg for x in fn.args.args]
+        if spec.mutates:
+            self.mutates[spec.name] = tuple(spec.mutates)
         if fun.fun_defaults:
             self.fun_defaults[spec.name] = fun.fun_defaults
         return text
@@ -2834,4 +3291,5 @@ class Unit:
     def section_defs(self) -> str:
         """Definitions to place inside the Section, after its Context (they use `ltb`)."""
         return (PY_MIN + "\n" if "py_min" in self.helpers else "") + (SET_DEFS if "set_add" in self.helpers else "") \
-            + (SET_DEFS2 if "set_of_list" in self.helpers else "")
+            + (SET_DEFS2 if "set_of_list" in self.helpers else "") \
+            + "".join(v for k, v in SEQ_DEFS.items() if k in self.helpers)
